@@ -1,11 +1,19 @@
 // Contracts for crates/jxl-coding/src/prefix.rs (child module: sees Histogram's private constructors and fields).
 //
-// Specification: canonical prefix codes of RFC 7932 section 3.2 (= RFC 1951 3.2.2): codewords are
-// assigned in order of (length, symbol index); a codeword is sent most-significant bit first, so in the
-// LSB-first JPEG XL bit stream the next len[s] bits, read as u(len[s]), are the bit-reversed codeword.
-// Obligation: for every complete length vector (Kraft sum == 1) `with_code_lengths` succeeds and
-// `read_symbol` on a stream that starts with the bit-reversed codeword of s returns s and consumes len[s]
-// bits -- through the one-level table (lengths <= 10) and the two-level table (lengths 11..15).
+// UNDER CONTRACT
+//   * read_symbol against the table it is given (table_wf / slot_wf below): total, in-range indexing, returns the
+//     selected entry's symbol, consumes its length, fails only with unexpected-eof when the stream is shorter
+//     than the selected codeword -- for every well-formed table within the stated geometry bound.
+//   * single-symbol code: with_single_symbol / single_symbol() / read_symbol consume 0 bits.
+//
+// NOT UNDER CONTRACT (measured, Kani 0.68 / CBMC 6.11): `with_code_lengths`, hence "decoding the bit-reversed
+// canonical codeword of s (RFC 7932 3.2) returns s and consumes len[s] bits", the two-level table for lengths
+// 11..15, parse_simple and parse_complex. Symbolic execution of with_code_lengths does not terminate within
+// 20 min even for <= 4 symbols with lengths <= 3 or for ONE concrete length vector: its loop bounds live in
+// heap-resident Vec<Vec<u16>> headers, so every loop (incl. the nested fill / chunk loops) is unrolled to the
+// unwinding bound with fresh allocations per iteration. The specification (spec_canonical_prefix_code,
+// spec_bit_reverse, kraft, check_decodes) and the harnesses `small_codes_contract` / `profile_*` are kept below,
+// UNREGISTERED, for a back end that can run them.
 //
 // Precondition of with_code_lengths established by its callers: Kraft sum <= 1
 //   parse_simple  (prefix.rs:168-193): fixed shapes {1,1} {1,2,2} {2,2,2,2} {1,2,3,3}; duplicates only lower the sum
@@ -96,7 +104,7 @@ fn check_decodes(h: &Histogram, lengths: &[u8]) {
 }
 
 // ------------------------------------------------------------------------------------------------
-// every length vector with <= 6 symbols and lengths <= 5
+// every length vector with <= 6 symbols and lengths <= 5            (UNREGISTERED: does not close, see header)
 // ------------------------------------------------------------------------------------------------
 #[kani::proof]
 #[kani::unwind(34)]
@@ -127,7 +135,7 @@ fn small_codes_contract() {
 }
 
 // ------------------------------------------------------------------------------------------------
-// fixed profiles that reach lengths 11..15 (second-level table, chunk carry-over, empty length classes)
+// fixed profiles that reach lengths 11..15 (second-level table, chunk carry-over, empty length classes)   (UNREGISTERED)
 // ------------------------------------------------------------------------------------------------
 fn check_profile(lengths: &[u8]) {
     assert!(kraft(lengths) == 1 << 15);
@@ -189,42 +197,6 @@ fn single_symbol_contract() {
     assert!(matches!(r, Ok(x) if x == sym as u32), "[C04,C11] a single-symbol code decodes without reading, even at end of data");
     assert!(bs.num_read_bits() == off, "[C04] and consumes 0 bits");
     kani::cover!(len * 8 == off);
-}
-
-// ------------------------------------------------------------------------------------------------
-// [C11] prefix lemma for read_symbol: on a cut stream the decoded symbol is the same or the call is unexpected-eof
-// ------------------------------------------------------------------------------------------------
-#[kani::proof]
-#[kani::unwind(34)]
-fn read_symbol_prefix_lemma() {
-    let lengths: [u8; 6] = kani::any();
-    let mut i = 0;
-    while i < 6 {
-        kani::assume(lengths[i] <= 5);
-        i += 1;
-    }
-    kani::assume(kraft(&lengths) == 1 << 15);
-    let Ok(h) = Histogram::with_code_lengths(lengths.to_vec()) else { return; };
-    let data: [u8; 2] = kani::any();
-    let len: usize = kani::any();
-    let cut: usize = kani::any();
-    let off: usize = kani::any();
-    kani::assume(len <= 2 && cut <= len && off <= 7);
-    let mut full = Bitstream::new(&data[..len]);
-    let mut pre = Bitstream::new(&data[..cut]);
-    if pre.skip_bits(off).is_err() || full.skip_bits(off).is_err() { return; }
-    let rf = h.read_symbol(&mut full);
-    let rp = h.read_symbol(&mut pre);
-    match (&rp, &rf) {
-        (Ok(a), Ok(b)) => assert!(a == b && pre.num_read_bits() == full.num_read_bits(), "[C11] a prefix never changes the symbol or the position"),
-        (Err(e), _) => {
-            assert!(e.unexpected_eof(), "[C11] a prefix can only fail with unexpected-eof");
-            assert!(pre.num_read_bits() == off, "[C11] a failed read consumes nothing");
-        }
-        (Ok(_), Err(_)) => assert!(false, "[C11] prefix succeeded where the full stream fails"),
-    }
-    kani::cover!(rp.is_err() && rf.is_ok());
-    kani::cover!(rp.is_ok() && cut < len);
 }
 
 // ------------------------------------------------------------------------------------------------
@@ -305,37 +277,15 @@ fn read_symbol_table<const TOP: usize>(cut_stream: bool) {
     kani::cover!(r.is_err() == cut_stream);
 }
 
-/// every table geometry (toplevel_bits 0..=10), full stream (the refill never needs its byte-wise slow path, so the
-/// large unwinding bound needed to build the 1024-entry symbolic table costs nothing in the reader)
+/// BOUND: toplevel_bits <= 6 (a fully symbolic 1024-entry first level, toplevel_bits = 10, does not close in 5 min;
+/// the lookup code depends on the geometry only through `peeked & toplevel_mask` and `peeked >> toplevel_bits`).
+/// Full stream, offset 0: the reader's byte-wise slow path is then not explored under the unwinding bound
+/// that building the symbolic table needs.
 #[kani::proof]
-#[kani::unwind(1026)]
-fn read_symbol_table_contract() { read_symbol_table::<1024>(false); }
+#[kani::unwind(66)]
+fn read_symbol_table_contract() { read_symbol_table::<64>(false); }
 
 /// [C11] cut streams (<= 3 bytes), tables with toplevel_bits <= 3 (the lookup code does not depend on the geometry)
 #[kani::proof]
 #[kani::unwind(42)]
 fn read_symbol_table_cut_stream() { read_symbol_table::<8>(true); }
-
-// ---- TEMP experiments ----
-#[kani::proof]
-#[kani::unwind(9)]
-fn exp_small43() {
-    let lengths: [u8; 4] = kani::any();
-    let mut i = 0;
-    while i < 4 {
-        kani::assume(lengths[i] <= 3);
-        i += 1;
-    }
-    let k = kraft(&lengths);
-    kani::assume(k <= 1 << 15);
-    let r = Histogram::with_code_lengths(lengths.to_vec());
-    match &r {
-        Ok(h) => {
-            assert!(k == 1 << 15, "[C04] only complete codes are accepted");
-            check_decodes(h, &lengths);
-        }
-        Err(e) => {
-            assert!(k != 1 << 15, "[C04,C01] every complete code is accepted");
-        }
-    }
-}
